@@ -13,8 +13,11 @@ use crate::{AsyncReadPacket, ReadPacket};
 /// u16-prefixed text component, so no request may exceed 64 KiB; contents are left arbitrary (they are overwritten)
 pub fn bounded_from_elem<T: Clone>(elem: T, n: usize) -> Vec<T> {
     assert!(n <= 65535, "allocation sized by an untrusted length prefix exceeds 64 KiB");
-    let mut v = Vec::with_capacity(n);
-    unsafe { v.set_len(n); }
+    // requests above 64 elements are represented by a 64-element buffer: the inputs of these harnesses are at most 18
+    // bytes, so filling either fails with end-of-stream in the same way, and CBMC is spared a 64 KiB symbolic object
+    let m = if n > 64 { 64 } else { n };
+    let mut v = Vec::with_capacity(m);
+    unsafe { v.set_len(m); }
     std::mem::forget(elem);
     v
 }
@@ -87,6 +90,33 @@ mod proofs {
             Err(e) => { let ok = matches!(e, crate::Error::IllegalPacketLength); std::mem::forget(e); assert!(ok, "negative length prefix is an illegal length"); }
         }
         assert!(rd.pos == 5, "nothing is consumed beyond the length prefix");
+    }
+
+    fn read_with_prefix(prefix: [u8; 5]) -> (bool, usize) {
+        let mut b = [0x41u8; N];
+        let mut i = 0; while i < 5 { b[i] = prefix[i]; i += 1; }
+        let mut rd = Src::new(b);
+        let illegal = match run(rd.read_bytes()) {
+            Ok(v) => { std::mem::forget(v); false }
+            Err(e) => { let y = matches!(e, crate::Error::IllegalPacketLength); std::mem::forget(e); y }
+        };
+        (illegal, rd.pos)
+    }
+    /// literal negative length prefixes (-1 and i32::MIN): refused as illegal, no allocation attempted, no panic
+    #[kani::proof]
+    #[kani::stub(alloc::vec::from_elem, bounded_from_elem)]
+    #[kani::unwind(14)]
+    fn negative_length_literals() {
+        let (illegal, pos) = if kani::any() { read_with_prefix([0xff, 0xff, 0xff, 0xff, 0x0f]) } else { read_with_prefix([0x80, 0x80, 0x80, 0x80, 0x08]) };
+        assert!(illegal && pos == 5, "a negative length prefix is an illegal length; nothing beyond it is consumed");
+    }
+    /// literal 2^31-1 length prefix on a 10-byte input: an error, and nothing near 2 GiB is requested up front
+    #[kani::proof]
+    #[kani::stub(alloc::vec::from_elem, bounded_from_elem)]
+    #[kani::unwind(14)]
+    fn huge_length_is_not_preallocated() {
+        let (illegal, pos) = read_with_prefix([0xff, 0xff, 0xff, 0xff, 0x07]);
+        assert!(!illegal && pos == N, "a length beyond the data is an end-of-stream error after reading what is there");
     }
 
     /// primitives on arbitrary bytes (the u16-prefixed text component allocates at most 64 KiB by construction and is not run here)
